@@ -389,9 +389,24 @@ def match_subject_total(m: Model, r: Report, rid: str, fn: FuncInfo) -> None:
     constructor first raises ValueError for every value the table does not list, so the catch-all arm is dead and the reader task ends."""
     from sa.model import ClassInfo
     n_m = 0
-    for mt in [n for n in walk_no_nested(fn.node) if isinstance(n, ast.Match)]:
-        if not any(isinstance(c.pattern, ast.MatchAs) and c.pattern.pattern is None for c in mt.cases):
-            continue
+    from types import SimpleNamespace as _NS
+    cands_ = [n for n in walk_no_nested(fn.node) if isinstance(n, ast.Match) and any(isinstance(c.pattern, ast.MatchAs) and c.pattern.pattern is None for c in n.cases)]
+    if not cands_:
+        # the same dispatch written as an if / elif / else chain on one subject: the subject of its first equality test
+        from sa import dispatch as _dp
+        for st_ in walk_no_nested(fn.node):
+            if isinstance(st_, ast.If) and isinstance(st_.test, (ast.Compare, ast.BoolOp)):
+                cmp_ = st_.test if isinstance(st_.test, ast.Compare) else next((v for v in st_.test.values if isinstance(v, ast.Compare)), None)
+                if cmp_ is None or len(cmp_.ops) != 1 or not isinstance(cmp_.ops[0], (ast.Eq, ast.In)):
+                    continue
+                for side in (cmp_.left, cmp_.comparators[0]):
+                    a_ = _dp.arms(fn.node, ast.unparse(side))
+                    if a_ is not None and _dp.default_arm(a_) is not None and len(a_) >= 3:
+                        cands_ = [_NS(subject=side, lineno=st_.lineno)]
+                        break
+                if cands_:
+                    break
+    for mt in cands_:
         n_m += 1
         partial = []
         for c in ast.walk(mt.subject):
@@ -403,7 +418,7 @@ def match_subject_total(m: Model, r: Report, rid: str, fn: FuncInfo) -> None:
                 f"the match subject converts the wire value with {partial}: values outside the enum raise ValueError before the catch-all arm, "
                 "the reader task dies and the connection is closed instead of the frame being skipped / reported", loc=f"{fn.module.relpath}:{mt.lineno}")
     if n_m < 1:
-        raise AnalysisError(f"{fn.qualname}: no match statement with a catch-all arm")
+        raise AnalysisError(f"{fn.qualname}: no dispatch (match / if-chain) with a catch-all arm")
 
 
 def callee_param_names(m: Model, caller: FuncInfo, call: ast.Call) -> list[str]:
